@@ -11,7 +11,14 @@ Domain
   * thorough tier: an atheris (libFuzzer) campaign whose input bytes are decoded into "ops" cases.
   Every history is followed by one fresh well-formed transfer per id (clause c).
 
-Oracle (per interface: decode_rx_frame, read_telegrams on candump text, active decoder)
+Systems under test: IsoTpStateMachine.decode_rx_frame, read_telegrams on candump text, IsoTpActiveDecoder with a
+fake bus, and the two verbose decoders that odxtools/cli/snoop.py builds with init_verbose_state_machine()
+(passive: IsoTpStateMachine, active: IsoTpActiveDecoder) - the production consumers of the on_sequence_error /
+on_frame_type_error callbacks named in the property's anchors; their printing is captured and discarded.
+For the snoop decoders the same oracle applies plus `snoop-differential`: frame by frame they yield exactly what
+the plain class yields.  Nothing is asserted about what they print.
+
+Oracle (per system under test)
   (a) no-raise      processing a frame never raises;
   (b) justified     every reported telegram is accepted by models.isotp.Justifier (payload of the single
                     frame just received, or announced-length prefix of the latest first frame followed by
@@ -46,11 +53,13 @@ ASSUMPTIONS = [
     "expected to be skipped (a warning on stderr is not a violation)",
     "fresh/clean transfers avoid CAN-FD single frames with the length escape (that defect belongs to C12)",
     "the active decoder is driven with a recording fake bus; its transmitted flow-control frames are not judged here",
+    "the snoop decoders (cli/snoop.py init_verbose_state_machine) are driven through decode_rx_frame only; what their "
+    "callbacks print to stdout is captured and not judged",
 ]
 MUST_HIT = ["fault:drop", "fault:dup", "fault:swap", "fault:trunc", "fault:pci", "fault:inject-cf", "fault:inject-fc",
             "fault:inject-ff", "fault:empty", "fault:overlong", "fault:one-byte", "cf-before-ff",
             "stray-cf-after-complete", "clean-transfer-after-fault", "double-fault", "ids:2", "fd", "random-frames",
-            "kind:ops", "kind:faulted"]
+            "kind:ops", "kind:faulted", "sut:snoop-verbose", "fault:invalid-frame-type"]
 
 IDS = [0x7E0, 0x7E8]
 KINDNAME = {None: "empty", 0: "sf", 1: "ff", 2: "cf", 3: "fc"}
@@ -96,6 +105,8 @@ class History:
                 self.classes.add("cf-before-ff")
             if k == M.FF and len(data) >= 2:
                 self.seen_ff[can_id] = True
+            if k is not None and k >= 4:
+                self.classes.add("fault:invalid-frame-type")
         self.frames.append((can_id, data))
         if expect is not None:
             self.expect[len(self.frames) - 1] = [bytes(expect)]
@@ -410,13 +421,18 @@ def judge(h: History, results, iface, case) -> list:
     return fails
 
 
-def evaluate(case, ifaces=("frames", "text", "active")):
+ALL_SUTS = ("frames", "text", "active", "snoop-passive", "snoop-active")
+
+
+def evaluate(case, ifaces=ALL_SUTS):
     """-> (failures in order, classes, nontrivial)"""
     ism = c12._ism()
     h = build(case)
     fails = []
+    plain = {}
     if "frames" in ifaces:
         r = c12.drive_frames(ism.IsoTpStateMachine(list(h.ids)), h.frames)
+        plain["frames"] = r
         fails += judge(h, r, "frames", case)
     if "text" in ifaces:
         topt = case.get("text") or {}
@@ -437,8 +453,60 @@ def evaluate(case, ifaces=("frames", "text", "active")):
                                       {"bucket": f"raise:ctor:{type(e).__name__}", "iface": "active"}))
         else:
             r = c12.drive_frames(dec, h.frames, bus)
+            plain["active"] = r
             fails += judge(h, r, "active", case)
+    # production consumers of the callbacks: the verbose decoders of `odxtools snoop` (cli/snoop.py)
+    for sut in ("snoop-passive", "snoop-active"):
+        if sut not in ifaces:
+            continue
+        h.classes.add("sut:snoop-verbose")
+        r = drive_snoop(sut, h)
+        if isinstance(r, core.Failure):
+            r.case = case
+            fails.append(r)
+            continue
+        fails += judge(h, r, sut, case)
+        fails += differential(h, r, plain.get("active" if sut == "snoop-active" else "frames"), sut, case)
     return fails, h.classes, (h.faults >= 1 and h.multi)
+
+
+def drive_snoop(sut, h: History):
+    """the decoder that init_verbose_state_machine() builds for the passive / active snoop loop, fed frame by frame;
+    whatever its callbacks print is captured and discarded"""
+    import contextlib
+    import io
+    ism = c12._ism()
+    from odxtools.cli import snoop
+    bus = None
+    try:
+        with contextlib.redirect_stdout(io.StringIO()), contextlib.redirect_stderr(io.StringIO()):
+            if sut == "snoop-passive":
+                dec = snoop.init_verbose_state_machine(BaseClass=ism.IsoTpStateMachine, can_rx_ids=list(h.ids))
+            else:
+                bus = c12.FakeBus()
+                dec = snoop.init_verbose_state_machine(BaseClass=ism.IsoTpActiveDecoder, can_bus=bus,
+                                                       can_rx_ids=list(h.ids), can_tx_ids=c12.TX_POOL[:len(h.ids)],
+                                                       padding_size=8)
+    except Exception as e:
+        return core.Failure("no-raise", f"{sut}: init_verbose_state_machine raised {type(e).__name__}: {e}", None,
+                            {"bucket": f"raise:ctor:{sut}:{type(e).__name__}", "iface": sut})
+    with contextlib.redirect_stdout(io.StringIO()), contextlib.redirect_stderr(io.StringIO()):
+        return c12.drive_frames(dec, h.frames, bus)
+
+
+def differential(h: History, r_verbose, r_plain, sut, case) -> list:
+    """the informative subclass must yield, frame by frame, exactly what the plain class yields"""
+    if r_plain is None:
+        return []
+    for idx, (a, b) in enumerate(zip(r_verbose, r_plain)):
+        if a[0] != "ok" or b[0] != "ok":
+            continue        # exceptions are judged by the no-raise clause
+        if a[1] != b[1]:
+            cid, data = h.frames[idx]
+            return [core.Failure(
+                "snoop-differential", f"{sut}: frame {idx} (0x{cid:X} {data.hex()}) yields {a[1]} but the plain "
+                f"decoder yields {b[1]}", case, {"bucket": f"snoop-differs:{sut}", "iface": sut, "kind": kindname(data)})]
+    return []
 
 
 def replay(case) -> list:
@@ -647,14 +715,15 @@ def atheris_main(argv=None):
     art, runs, seed = argv[1], int(argv[2]), int(argv[3])
     import atheris
     from vlib import known
-    with atheris.instrument_imports(include=["odxtools.isotp_state_machine"]):
+    with atheris.instrument_imports(include=["odxtools.isotp_state_machine", "odxtools.cli.snoop"]):
         import odxtools.isotp_state_machine  # noqa: F401
+        import odxtools.cli.snoop  # noqa: F401
     kf = known.load(PROPERTY)
     dummy = core.ShardResult()
 
     def one(data):
         case = decode_fuzz_bytes(data)
-        fails, _, _ = evaluate(case, ifaces=("frames",))
+        fails, _, _ = evaluate(case, ifaces=("frames", "snoop-passive"))
         if split_known(fails, kf, dummy):
             raise RuntimeError("C13 violation")
 
